@@ -11,6 +11,8 @@ import (
 	"sort"
 	"strconv"
 	"strings"
+	"unicode"
+	"unicode/utf8"
 
 	"golang.org/x/mod/module"
 )
@@ -125,12 +127,14 @@ func ParsePatterns(docs ...*ast.CommentGroup) (patterns []string, hasDirective b
 				return nil, hasDirective, err
 			}
 			for _, f := range fields {
-				if uq, err := strconv.Unquote(f); err == nil {
-					patterns = append(patterns, uq)
-				} else {
-					if len(f) > 0 && (f[0] == '"' || f[0] == '`') {
+				if len(f) > 0 && (f[0] == '"' || f[0] == '`') {
+					uq, err := strconv.Unquote(f)
+					if err != nil {
 						return nil, hasDirective, fmt.Errorf("invalid //go:embed quoted pattern %q", f)
 					}
+					patterns = append(patterns, uq)
+				} else {
+					// a bare argument is taken literally (strconv.Unquote would turn 'a' into a)
 					patterns = append(patterns, f)
 				}
 			}
@@ -154,18 +158,18 @@ func ParseDirective(line string) (args string, ok bool) {
 }
 
 func SplitArgs(s string) ([]string, error) {
+	// Mirrors parseGoEmbed of go/build and cmd/compile: arguments are separated by
+	// unicode.IsSpace runes, and a quoted argument must be followed by a space or the end.
 	var out []string
-	for i := 0; i < len(s); {
-		for i < len(s) && (s[i] == ' ' || s[i] == '\t') {
-			i++
-		}
-		if i >= len(s) {
+	for {
+		s = strings.TrimLeftFunc(s, unicode.IsSpace)
+		if s == "" {
 			break
 		}
-		start := i
-		if s[i] == '"' || s[i] == '`' {
-			quote := s[i]
-			i++
+		var tok string
+		if s[0] == '"' || s[0] == '`' {
+			quote := s[0]
+			i := 1
 			closed := false
 			for i < len(s) {
 				if s[i] == quote {
@@ -182,13 +186,20 @@ func SplitArgs(s string) ([]string, error) {
 			if !closed {
 				return nil, fmt.Errorf("invalid //go:embed quoted pattern")
 			}
-			out = append(out, s[start:i])
-			continue
+			tok, s = s[:i], s[i:]
+			if s != "" {
+				if r, _ := utf8.DecodeRuneInString(s); !unicode.IsSpace(r) {
+					return nil, fmt.Errorf("invalid quoted string in //go:embed: %s", s)
+				}
+			}
+		} else {
+			i := strings.IndexFunc(s, unicode.IsSpace)
+			if i < 0 {
+				i = len(s)
+			}
+			tok, s = s[:i], s[i:]
 		}
-		for i < len(s) && s[i] != ' ' && s[i] != '\t' {
-			i++
-		}
-		out = append(out, s[start:i])
+		out = append(out, tok)
 	}
 	return out, nil
 }
@@ -344,6 +355,12 @@ func CheckPath(pkgDir, abs string, dirOK map[string]bool) (info fs.FileInfo, rel
 		}
 		if _, err := os.Stat(filepath.Join(dir, "go.mod")); err == nil {
 			return nil, "", fmt.Errorf("cannot embed %s %s: in different module", what, rel)
+		}
+		if dir != abs {
+			if pinfo, err := os.Lstat(dir); err == nil && !pinfo.IsDir() {
+				pr, _ := RelPath(pkgDir, dir)
+				return nil, "", fmt.Errorf("cannot embed %s %s: in non-directory %s", what, rel, pr)
+			}
 		}
 		elem := filepath.Base(dir)
 		if IsBadName(elem) {
